@@ -170,14 +170,18 @@ def run(ctx):
             sc_i = (sc if not shared else (True if fa * fb < 0 and cont else None))
             check_props(ctx, name, params, f, lo_i, hi_i, tol, sc_i, cont, roots[i], bool(succ[i]), T, "brentsrootvec")
             # component-wise agreement with the scalar solver
-            r_s, s_s = OPT.brentsroot(f, [lo_i, hi_i], tol=tol)
+            f_s = Logged(f)
+            r_s, s_s = OPT.brentsroot(f_s, [lo_i, hi_i], tol=tol)
+            # (a scalar run stopped by the 64-iteration cap - finding P14b - ends wherever the cap catches it: the lane, which is
+            # evaluated once more, may close the bracket; such a disagreement is that finding, not a new one)
+            capped_s = len(f_s.log) >= 64 and not bool(s_s)
             if np.isfinite(r_s):
                 tolv = EPS64 if tol is None or tol < EPS64 else tol
                 close = abs(float(r_s) - float(roots[i])) <= 2 * tolv + 4 * abs(np.spacing(r_s))
                 agree = (bool(s_s) == bool(succ[i])) and (close or not bool(s_s) or not (fa * fb < 0))
                 ctx.oracle("vector-agrees-with-scalar", agree, dict(kind="brent-vec-vs-scalar", family=name, params=params, lo=float(lo_i), hi=float(hi_i), tol=tol,
                            scalar=[float(r_s), bool(s_s)], vector=[float(roots[i]), bool(succ[i])]),
-                           key="brent-vec-vs-scalar:" + ("flag" if close else "root"),
+                           key="brent-iteration-cap" if (capped_s and close) else "brent-vec-vs-scalar:" + ("flag" if close else "root"),
                            what="vector lane %r differs from scalar solver %r" % ([float(roots[i]), bool(succ[i])], [float(r_s), bool(s_s)]))
             if len(Ls[i].log) > 3:
                 ctx.nontrivial(("v", name, str(params), float(lo_i), float(hi_i), tol))
